@@ -18,7 +18,7 @@
 (*   [t:"str", tok, tt] [t:"arr", l] [t:"obj", m : Seq([k, v])] [t:"invalid"] *)
 (*   every node has c = its canonical text.                                *)
 (*                                                                         *)
-(* Prop layer: Valid (C07), Match = "j is the encoding of v under s"       *)
+(* Prop layer: Valid (C07), Encodes = "j is the encoding of v under s"       *)
 (* (C06/C07), VEq (C06 round trip), JEquiv (C08).                          *)
 (* Impl layer: the writer machine with its comma register (MC_Codec).      *)
 (***************************************************************************)
@@ -73,8 +73,8 @@ Flatten(v) == LET RECURSIVE go(_)
 HasField(fs, nn) == \E i \in DOMAIN fs : fs[i].n = nn
 FieldOf(fs, nn)  == (CHOOSE e \in SeqToSet(fs) : e.n = nn).v
 
-RECURSIVE Match(_, _, _)
-MatchNN(s, v, j) ==
+RECURSIVE Encodes(_, _, _)
+EncodesNN(s, v, j) ==
     CASE s.k \in StringKinds -> v.t = "leaf" /\ j.t = "str" /\ j.tok = v.s
       [] s.k = "datetime"    -> v.t = "leaf" /\ j.t = "str" /\ j.tt = v.s
       [] s.k \in IntKinds    -> v.t = "leaf" /\ j.t = "num" /\ j.i = v.s
@@ -83,7 +83,7 @@ MatchNN(s, v, j) ==
       [] s.k = "bool"        -> v.t = "leaf" /\ j.t = "bool" /\ j.tok = v.s
       [] s.k = "any"         -> v.t = "leaf" /\ j.t # "invalid" /\ ("j:" \o j.c) = v.s
       [] s.k = "array"       -> v.t = "list" /\ j.t = "arr" /\ Len(v.l) = Len(j.l)
-                                /\ \A i \in DOMAIN v.l : Match(s.items, v.l[i], j.l[i])
+                                /\ \A i \in DOMAIN v.l : Encodes(s.items, v.l[i], j.l[i])
       [] s.k = "object"      ->
             /\ v.t = "struct" /\ j.t = "obj" /\ NoDupKeys(j)
             /\ LET fs == Flatten(v)
@@ -96,20 +96,20 @@ MatchNN(s, v, j) ==
                   /\ Keys(j) = present \cup { extra[i].k : i \in DOMAIN extra }
                   /\ \A i \in DOMAIN s.props :
                        LET p == s.props[i]  f == FieldOf(fs, p.nn) IN
-                         IF p.req THEN Match(p.s, f, Get(j, p.name))
-                         ELSE f.t = "maybe" /\ (f.set => Match(p.s, f.m, Get(j, p.name)))
+                         IF p.req THEN Encodes(p.s, f, Get(j, p.name))
+                         ELSE f.t = "maybe" /\ (f.set => Encodes(p.s, f.m, Get(j, p.name)))
                   /\ \A i \in DOMAIN extra :
-                       IF s.addl.k = "any" THEN Match([k |-> "any", nullable |-> FALSE], extra[i].v, Get(j, extra[i].k))
-                       ELSE Match(s.addl.s, extra[i].v, Get(j, extra[i].k))
+                       IF s.addl.k = "any" THEN Encodes([k |-> "any", nullable |-> FALSE], extra[i].v, Get(j, extra[i].k))
+                       ELSE Encodes(s.addl.s, extra[i].v, Get(j, extra[i].k))
       [] s.k = "oneOf"       ->
             /\ v.t = "struct"
             /\ Cardinality({ i \in DOMAIN v.f : v.f[i].v.t = "maybe" /\ v.f[i].v.set }) = 1
             /\ \E i \in DOMAIN v.f : v.f[i].v.t = "maybe" /\ v.f[i].v.set
-                                     /\ \E k \in DOMAIN s.of : Match(s.of[k], v.f[i].v.m, j)
+                                     /\ \E k \in DOMAIN s.of : Encodes(s.of[k], v.f[i].v.m, j)
       [] OTHER -> FALSE
-Match(s, v, j) == IF s.nullable /\ s.k # "any"
-                  THEN v.t = "nullable" /\ (IF v.set THEN MatchNN(s, v.m, j) ELSE j.t = "null")
-                  ELSE MatchNN(s, v, j)
+Encodes(s, v, j) == IF s.nullable /\ s.k # "any"
+                  THEN v.t = "nullable" /\ (IF v.set THEN EncodesNN(s, v.m, j) ELSE j.t = "null")
+                  ELSE EncodesNN(s, v, j)
 
 (* ---------------- C06: equality of projected values ---------------- *)
 RECURSIVE VEq(_, _)
